@@ -21,9 +21,10 @@ func init() {
 			"Added after blind round 4: the lock pairing rule of C07 (every acquisition released or deferred before every reachable return), which covers TransactionImpl.mu on the early-return paths of the transaction's methods. " +
 			"Added after blind round 7: a connection's tracking entry is deleted only when its set is empty (or by the connection sweep itself). " +
 			"Added after blind round 8: the registry's ticker goroutine runs CleanupStaleTransactions on every tick. " +
-			"Added after blind round 9: the default registry's idle limit is below its lifetime limit, the constants followed through a delegating constructor.",
+			"Added after blind round 9: the default registry's idle limit is below its lifetime limit, the constants followed through a delegating constructor. " +
+			"Added after blind round 10: the no-reentrancy obligations of the registry are listed here too (a lookup that calls the sweeper while holding the registry lock waits on itself).",
 		NotDecided: "timing (when the sweeper runs, the 10 s / 30 s constants), liveness for all call sequences, the begin goroutine's error returns that never reach the caller (reported as info).",
-		Rules:      []func(*Ctx, *Reporter){ruleTxFinishOnce, ruleTxRelease, ruleTxLockWriters, ruleTxOrphanRemoval, ruleTxBeginHandoff, ruleTxStale, ruleLockReleasedOnEveryExit, ruleConnTrackingDroppedOnlyWhenEmpty, ruleSweeperSweepsEveryTick, ruleDefaultRegistryLimits},
+		Rules:      []func(*Ctx, *Reporter){ruleTxFinishOnce, ruleTxRelease, ruleTxLockWriters, ruleTxOrphanRemoval, ruleTxBeginHandoff, ruleTxStale, ruleLockReleasedOnEveryExit, ruleConnTrackingDroppedOnlyWhenEmpty, ruleSweeperSweepsEveryTick, ruleDefaultRegistryLimits, subRules(ruleReentrancyScope, "no-reentrancy")},
 	})
 	register(&PropertyDef{
 		ID: "C04",
